@@ -155,7 +155,7 @@ pub fn run(ctx: &Ctx) {
     );
     ctx.assume("what is returned for the tail of an over-long segment is deliberately not modelled (the property leaves it open)");
     let lmax = ctx.tier.pick(12usize, 16);
-    let n = ctx.tier.pick(1_200, 6_000);
+    let n = ctx.tier.pick(8_000, 40_000);
     ctx.par_proptest(
         "all-chunkings-short-streams",
         n,
@@ -172,7 +172,7 @@ pub fn run(ctx: &Ctx) {
             Ok(())
         },
     );
-    let n = ctx.tier.pick(1_500, 30_000);
+    let n = ctx.tier.pick(10_000, 100_000);
     ctx.par_proptest(
         "all-cut-pairs",
         n,
@@ -189,7 +189,7 @@ pub fn run(ctx: &Ctx) {
             Ok(())
         },
     );
-    let n = ctx.tier.pick(80_000, 3_000_000);
+    let n = ctx.tier.pick(600_000, 6_000_000);
     ctx.par_proptest(
         "random-chunkings",
         n,
